@@ -57,8 +57,33 @@ type cmafIngester struct {
 	repsData       []cmafRepData
 	nextSegTrigger chan struct{}
 	done           chan struct{} // closed when the ingest loop has ended
+	mu             sync.Mutex    // guards state and report
 	state          ingesterState
 	report         []string
+}
+
+func (c *cmafIngester) setState(state ingesterState) {
+	c.mu.Lock()
+	defer c.mu.Unlock()
+	c.state = state
+}
+
+func (c *cmafIngester) getState() ingesterState {
+	c.mu.Lock()
+	defer c.mu.Unlock()
+	return c.state
+}
+
+func (c *cmafIngester) addReport(msg string) {
+	c.mu.Lock()
+	defer c.mu.Unlock()
+	c.report = append(c.report, msg)
+}
+
+func (c *cmafIngester) getReport() []string {
+	c.mu.Lock()
+	defer c.mu.Unlock()
+	return append([]string(nil), c.report...)
 }
 
 func NewCmafIngesterMgr(s *Server) *cmafIngesterMgr {
@@ -76,7 +101,7 @@ func (cm *cmafIngesterMgr) Start() {
 
 func (cm *cmafIngesterMgr) Close() {
 	for i, cancel := range cm.cancels {
-		if cm.ingesters[i].state == ingesterStateRunning {
+		if cm.ingesters[i].getState() == ingesterStateRunning {
 			cancel()
 		}
 	}
@@ -227,7 +252,7 @@ type cmafRepData struct {
 func (c *cmafIngester) start(ctx context.Context) {
 
 	defer func() {
-		c.state = ingesterStateStopped
+		c.setState(ingesterStateStopped)
 		close(c.done)
 	}()
 
@@ -243,7 +268,7 @@ func (c *cmafIngester) start(ctx context.Context) {
 		if ok {
 			if err != nil {
 				msg := fmt.Sprintf("error matching time subs init lang: %v", err)
-				c.report = append(c.report, msg)
+				c.addReport(msg)
 				c.log.Error(msg)
 				return
 			}
@@ -253,7 +278,7 @@ func (c *cmafIngester) start(ctx context.Context) {
 			err := init.EncodeSW(sw)
 			if err != nil {
 				msg := fmt.Sprintf("Error encoding init segment: %v", err)
-				c.report = append(c.report, msg)
+				c.addReport(msg)
 				c.log.Error(msg)
 				return
 			}
@@ -262,19 +287,19 @@ func (c *cmafIngester) start(ctx context.Context) {
 			match, err := matchInit(rd.initPath, c.cfg, c.mgr.s.Cfg.DrmCfg, c.asset)
 			if err != nil {
 				msg := fmt.Sprintf("Error matching init segment: %v", err)
-				c.report = append(c.report, msg)
+				c.addReport(msg)
 				c.log.Error(msg)
 			}
 			if !match.isInit {
 				msg := fmt.Sprintf("Error matching init segment: %v", err)
-				c.report = append(c.report, msg)
+				c.addReport(msg)
 				c.log.Error(msg)
 			}
 			contentType = match.rep.SegmentType()
 			initBin, err = setRawInitProps(match.init, rd, startTimeS)
 			if err != nil {
 				msg := fmt.Sprintf("Error setting init times: %v", err)
-				c.report = append(c.report, msg)
+				c.addReport(msg)
 				c.log.Error(msg)
 			}
 		}
@@ -282,17 +307,17 @@ func (c *cmafIngester) start(ctx context.Context) {
 		err = c.sendInitSegment(ctx, rd, initBin)
 		if err != nil {
 			msg := fmt.Sprintf("error uploading init segment: %v", err)
-			c.report = append(c.report, msg)
+			c.addReport(msg)
 			c.log.Error(msg)
 			nrInitErrors++
 		} else {
 			c.log.Info("Sent init segment", "path", rd.initPath, "contentType", contentType, "size", len(initBin))
-			c.report = append(c.report, fmt.Sprintf("Sent init segment %s", rd.initPath))
+			c.addReport(fmt.Sprintf("Sent init segment %s", rd.initPath))
 		}
 	}
 	if nrInitErrors > 0 {
 		msg := fmt.Sprintf("Number of init errors: %d", nrInitErrors)
-		c.report = append(c.report, msg)
+		c.addReport(msg)
 		c.log.Error("could not upload init segments", "nrErrors", nrInitErrors)
 		return
 	}
@@ -304,7 +329,7 @@ func (c *cmafIngester) start(ctx context.Context) {
 	} else {
 		nowMS = int(time.Now().UnixNano() / 1e6)
 	}
-	c.state = ingesterStateRunning
+	c.setState(ingesterStateRunning)
 
 	refRep := c.asset.refRep
 	lastNr := findLastSegNr(c.cfg, c.asset, nowMS, refRep)
@@ -321,7 +346,7 @@ func (c *cmafIngester) start(ctx context.Context) {
 	availabilityTime, err := calcSegmentAvailabilityTime(c.asset, refRep, uint32(nextSegNr), c.cfg)
 	if err != nil {
 		msg := fmt.Sprintf("Error calculating segment availability time: %v", err)
-		c.report = append(c.report, msg)
+		c.addReport(msg)
 		c.log.Error(msg)
 		return
 	}
@@ -358,7 +383,7 @@ func (c *cmafIngester) start(ctx context.Context) {
 		err := c.sendMediaSegments(ctx, nextSegNr, int(availabilityTime), isLast)
 		if err != nil {
 			msg := fmt.Sprintf("Error sending media segments: %v", err)
-			c.report = append(c.report, msg)
+			c.addReport(msg)
 			c.log.Error(msg)
 			return
 		}
@@ -366,7 +391,7 @@ func (c *cmafIngester) start(ctx context.Context) {
 		availabilityTime, err = calcSegmentAvailabilityTime(c.asset, refRep, uint32(nextSegNr), c.cfg)
 		if err != nil {
 			msg := fmt.Sprintf("Error calculating segment availability time: %v", err)
-			c.report = append(c.report, msg)
+			c.addReport(msg)
 			c.log.Error(msg)
 			return
 		}
@@ -379,12 +404,12 @@ func (c *cmafIngester) start(ctx context.Context) {
 			deltaTime := time.Duration(availabilityTime-int64(nowMS)) * time.Millisecond
 			for deltaTime <= 0 {
 				msg := fmt.Sprintf("Segment availability time in the past: %d", availabilityTime)
-				c.report = append(c.report, msg)
+				c.addReport(msg)
 				c.log.Error(msg)
 				err := c.sendMediaSegments(ctx, nextSegNr, int(availabilityTime), false /* isLast */)
 				if err != nil {
 					msg := fmt.Sprintf("Error sending media segments: %v", err)
-					c.report = append(c.report, msg)
+					c.addReport(msg)
 					c.log.Error(msg)
 					return
 				}
@@ -392,7 +417,7 @@ func (c *cmafIngester) start(ctx context.Context) {
 				availabilityTime, err = calcSegmentAvailabilityTime(c.asset, refRep, uint32(nextSegNr), c.cfg)
 				if err != nil {
 					msg := fmt.Sprintf("Error calculating segment availability time: %v", err)
-					c.report = append(c.report, msg)
+					c.addReport(msg)
 					c.log.Error(msg)
 					return
 				}
